@@ -811,6 +811,26 @@ def n1(a, *args, **kwargs): return logged(inner, *args, **kwargs)
 def n2(b, *args, **kwargs): return traced(n1, *args, **kwargs)
 def n3(c, *args, **kwargs): return logged(n2, *args, **kwargs)
 def n4(d, *args, **kwargs): return traced(n3, *args, **kwargs)
+def deep0(c, *args, **kwargs):
+    return inner(*args, **kwargs)
+def deep1(c, *args, **kwargs):
+    def l1():
+        return inner(*args, **kwargs)
+    return l1()
+def deep2(c, *args, **kwargs):
+    def l1():
+        def l2():
+            return inner(*args, **kwargs)
+        return l2()
+    return l1()
+def deep3(c, *args, **kwargs):
+    return (lambda: (lambda: (lambda: inner(*args, **kwargs))())())()
+def deep2q(c, *args, **kwargs):
+    def l1(q):
+        def l2():
+            return inner(*args, **kwargs)
+        return l2()
+    return l1(1)
 @modifiers.kwoargs('k')
 def kw(f, a, k=3, *args, **kwargs): return f(*args, **kwargs)
 def kw_native(f, a, *args, k=3, **kwargs): return f(*args, **kwargs)
@@ -846,6 +866,14 @@ def rt_probes_c06(req):
                         problems.append('chain-provenance: level %d: sources %s do not credit inner' % (k, gs))
                         break
                     below = want
+            # how deep the forwarding call is nested, and whether the functions in between bind names, is irrelevant
+            base = str(sigtools.signature(mod.deep0))
+            for nm in ('deep1', 'deep2', 'deep3', 'deep2q'):
+                got = str(sigtools.signature(getattr(mod, nm)))
+                if got != base:
+                    problems.append('nesting-depth-changes-outcome: the forwarding call written directly gives %s, nested as in %s it gives %s' % (
+                        base, nm, got))
+                    break
             for dec, nat in (('kw', 'kw_native'), ('po', 'po_native'), ('au', 'kw_native')):
                 for extra in ((), (1,)):
                     pd = functools.partial(getattr(mod, dec), mod.inner, *extra)
